@@ -62,6 +62,42 @@ func makeLineageTree(k0, sib, depth int, finalized *int64) []*gomini.State {
 	return out
 }
 
+// occursAfterRecycling: facts the engine may remember about values (here: what the occurs check has seen) must not be keyed by
+// addresses of objects it does not keep alive.  Phase 1 runs the occurs check over many short-lived ground terms, on states of
+// one lineage tree; then the terms die and the collector runs; phase 2 allocates fresh terms that contain the variable v and
+// asks for v == term, which has no finite unifier - each must yield no state.  Returns how many yielded a state.
+//
+//go:noinline
+func occursAfterRecycling(nGround, nFresh int) (accepted int, ran int) {
+	st := gomini.NewState()
+	var v *GT
+	st, v = gomini.NewVar[*GT](st)
+	func() {
+		for i := 0; i < nGround; i++ {
+			st1, x := gomini.NewVar[*GT](st)
+			s := "g"
+			term := &GT{A: &GT{S: &s}, B: &GT{}, L: []*GT{{}}}
+			runGoal(gomini.EqualO(x, term), st1, -1, time.Second)
+		}
+	}()
+	runtime.GC()
+	runtime.GC()
+	keep := make([]*GT, 0, nFresh)
+	for i := 0; i < nFresh; i++ {
+		c := &GT{A: v}
+		keep = append(keep, c)
+		states, how := runGoal(gomini.EqualO(v, c), st, -1, time.Second)
+		if how == "closed" {
+			ran++
+			if len(states) > 0 {
+				accepted++
+			}
+		}
+	}
+	runtime.KeepAlive(keep)
+	return accepted, ran
+}
+
 func gcWrap(g gomini.Goal) gomini.Goal {
 	return func(ctx context.Context, s *gomini.State, ss gomini.Stream) {
 		runtime.GC()
@@ -79,7 +115,7 @@ func nodeList(xs []string) *concato.Node {
 
 func runC05(cfg *Config) *Report {
 	rep := newReport()
-	rep.Rule = "per case: k variables created with NewVar and dropped by the caller, GC forced; finalizer count while the state is alive; the same for a TREE of states (2..7 siblings derived from one parent with 1..40 variables, children and cousins), all kept alive; CastVar of m freshly allocated constants of the same type; ConcatO split searches on lists of 20..120 elements under GCPercent in {1,10,100,off} with and without a forced GC at every goal boundary; non-trivial = GC actually ran between creation and use (NumGC advanced); distinct by (k, m, list length, GC setting)"
+	rep.Rule = "per case: k variables created with NewVar and dropped by the caller, GC forced; finalizer count while the state is alive; the same for a TREE of states (2..7 siblings derived from one parent with 1..40 variables, children and cousins), all kept alive; the occurs check on fresh terms after 6000 occurs-checked ground terms died and were collected (first two cases with the collector on); CastVar of m freshly allocated constants of the same type; ConcatO split searches on lists of 20..120 elements under GCPercent in {1,10,100,off} with and without a forced GC at every goal boundary; non-trivial = GC actually ran between creation and use (NumGC advanced); distinct by (k, m, list length, GC setting)"
 	r := newRand(cfg.Seed)
 	defer debug.SetGCPercent(debug.SetGCPercent(100))
 	for i := 0; i < cfg.N; i++ {
@@ -135,6 +171,14 @@ func runC05(cfg *Config) *Report {
 		}
 		obs += fmt.Sprintf(" finalized-in-lineage-tree=%d", atomic.LoadInt64(&finTree))
 		runtime.KeepAlive(tree)
+		// probe 2b (first cases of a run only: it is the expensive one): the occurs check after address recycling
+		if i < 2 && gcp != -1 {
+			acc, ran := occursAfterRecycling(6000, 20000)
+			obs += fmt.Sprintf(" occurs-after-recycling=%d/%d", acc, ran)
+			if acc > 0 {
+				rep.violate(i, "later-value-inherits-facts-about-a-dead-one", desc, fmt.Sprintf("after 6000 ground terms were occurs-checked, died and were collected, %d of %d fresh terms that CONTAIN the variable v were accepted by v == term (a cyclic binding): the engine remembered something about a dead object by its address", acc, ran))
+			}
+		}
 		// probe 3: answers independent of GC timing
 		xs := make([]string, ln)
 		for j := range xs {
